@@ -25,8 +25,8 @@ META = {
     "assumptions": ["documents on which resolving the path argument is itself an error by C04 (`single` with several "
                     "matches, datum modifier undefined on a selected node) are executed, counted and not judged",
                     "the literal rule is judged by the implementation itself (relational oracle): leaf meanings are C01's business"],
-    "bounds": {"quick": {"documents": "~190", "positions": 18, "path arguments": 15},
-               "thorough": {"documents": "~190 + F-type two-level", "positions": 18, "path arguments": 15}},
+    "bounds": {"quick": {"documents": "~190", "positions": 18, "path arguments": 18},
+               "thorough": {"documents": "~190 + F-type two-level", "positions": 18, "path arguments": 18}},
 }
 
 L = T.leaf
@@ -38,6 +38,8 @@ PARGS = [
     P((("prim", "lst"), Ls), None, "last"), P((("prim", "lst"), ("list", ("lit", 0), None, None)), None, "single"),
     P((("prim", "b"),), "length"), P((("prim", "m"),), "map_keys"), P((("prim", "lst"), Ls), "dtype", "all", "md"),
     P((("prim", "zz"), Ls)), P(()), P((("prim", "b"),), "dtype"),
+    P((("prim", "jobs"), Ls, ("prim", "cores")), None, "first"), P((("prim", "jobs"), Ls, ("prim", "cores")), None, "last"),
+    P((M, ("prim", "x")), "length", "first"),
 ]
 
 
@@ -76,6 +78,10 @@ def documents(tier):
         out.append({"a": [1, x], "b": x, "lst": [[1, x], x]})
     out += [{"a": 1}, {"b": 1}, {"lst": [1]}, [1, 2], {"a": ["b"], "b": "b"}, {"a": {"path": ["b"]}, "b": 1},
             {"a": 2, "b": 2, "lst": [2, 1, 1], "m": {"a": 1, "x": 2}}, {"a": 3, "b": [1, 2, 3], "lst": [1], "m": {"x": 1, "y": 2, "z": 3}}]
+    # intermediate matches that lack the remaining parts, before / after ones that have them
+    for x in (1, 4, "a"):
+        out.append({"a": x, "jobs": [{"name": "a"}, {"name": "b", "cores": 4}, {"cores": 1}, {"name": "c"}], "m": {"x": [x]}})
+        out.append({"a": x, "jobs": [{"cores": x}, {}], "b": {"y": 1}, "m": {"x": [1, 2]}, "n": {"x": "abc"}})
     # adjacent documents that compare == but differ in type (1 == True == 1.0): a re-used rule must not confuse them
     for seq in ([1, True, 1.0, 1], [0, False, 0.0], [[1], [True], [1.0]], [{"x": 1}, {"x": True}]):
         for x in seq:
